@@ -171,7 +171,9 @@ pub fn configs(ctx: &Ctx) -> Vec<DistSpec> {
         [u64::MAX - 2, 1u64 << 62, 1u64 << 62],
         [u64::MAX - 2, 1u64 << 63, 1u64 << 63],
         [1u64 << 62, 1u64 << 40, 1u64 << 61],
-        [1u64 << 62, (1u64 << 62) - 100, 1u64 << 30],
+        // (a draw count of 2^30 here made the constructor run for 7 CPU-s before it returned
+        // PopulationTooLarge: nothing was ever sampled and the time sat next to the hang limit)
+        [1u64 << 62, (1u64 << 62) - 100, 1u64 << 20],
     ] {
         v.push(DistSpec::i(Family::Hypergeometric, &t, &[]));
     }
